@@ -35,7 +35,12 @@ func launchKey(p *ProcSpec) string {
 	if p.Backoff != nil {
 		b = fmt.Sprint(*p.Backoff)
 	}
-	return strings.Join([]string{p.Token, strings.Join(p.Env, ","), p.WorkingDir, p.Restart, b, fmt.Sprint(p.MaxRestarts), probe(p.Readiness), probe(p.Liveness), strings.Join(deps, ","), fmt.Sprint(p.Disabled), p.ReadyLine}, "|")
+	st := "_"
+	if p.StopTimeout != nil {
+		st = fmt.Sprint(*p.StopTimeout)
+	}
+	return strings.Join([]string{p.Token, strings.Join(p.Env, ","), p.WorkingDir, p.Restart, b, fmt.Sprint(p.MaxRestarts), probe(p.Readiness), probe(p.Liveness), strings.Join(deps, ","), fmt.Sprint(p.Disabled), p.ReadyLine,
+		fmt.Sprint(p.UseEntry), p.Exe, fmt.Sprint(p.ParentOnly), st}, "|")
 }
 
 func cloneSpec(p *ProjectSpec) *ProjectSpec {
@@ -109,6 +114,9 @@ func checkC14(sc *Scenario, res *RunResult, t *Truth) []Violation {
 	}
 	if sc.Arm == "updaterace" {
 		return checkC14Race(sc, t)
+	}
+	if sc.Arm == "replicas" {
+		return checkC14Replicas(sc, t)
 	}
 	vs = append(vs, checkC14Launches(sc, t)...)
 	if len(vs) > 0 {
@@ -376,6 +384,15 @@ func checkC14Launches(sc *Scenario, t *Truth) []Violation {
 		if in.Token != q.Token {
 			bad = fmt.Sprintf("command simproc %s instead of simproc %s", in.Token, q.Token)
 		}
+		if q.UseEntry && bad == "" {
+			exe := q.Exe
+			if exe == "" {
+				exe = "simproc"
+			}
+			if !strings.HasPrefix(in.Args, exe+" ") {
+				bad = fmt.Sprintf("the command line %q instead of the executable %s", in.Args, exe)
+			}
+		}
 		for _, kv := range q.Env {
 			k := kv[:strings.IndexByte(kv, '=')]
 			if v, _ := envOf(in, k); v != kv[len(k)+1:] && bad == "" {
@@ -439,7 +456,89 @@ func checkC14Race(sc *Scenario, t *Truth) []Violation {
 	return vs
 }
 
+// genC14Replicas: an update that changes a replicated process replaces every replica
+func genC14Replicas(r *R, sc *Scenario) {
+	spec := &ProjectSpec{}
+	sc.Project = spec
+	sc.Scripts = map[string]*TokenScript{}
+	n := r.Range(2, 3)
+	spec.Procs = append(spec.Procs, &ProcSpec{Name: "rp", Token: "rp.v0", Replicas: n}, &ProcSpec{Name: "u0", Token: "u0.v0"})
+	life := simos.Script{LifeMs: -1, TermLagMs: Pick(r, 0, 10, 200)}
+	sc.Scripts["rp.*"] = &TokenScript{Launches: []simos.Script{life}}
+	sc.Scripts["u0.*"] = &TokenScript{Launches: []simos.Script{life}}
+	up := cloneSpec(spec)
+	if r.P(500) {
+		up.Procs[0].Token = "rp.v1"
+	} else {
+		up.Procs[0].Env = []string{"K=new"}
+	}
+	sc.Updates = []*ProjectSpec{up}
+	sc.Clients = []Client{{Name: "updater", Ops: []Op{{AtMs: Pick(r, 1500, 2500), Op: Pick(r, "update", "reload"), N: 0}}}}
+	sc.Strategy = genStrategy(r)
+	sc.Strategy.StallPermille = 0
+	sc.IterMode = Pick(r, 0, 1, 2, 3)
+	sc.RunForMs = 8000
+	sc.QuietMs = 1000
+	sc.Arm = "replicas"
+}
+
+// checkC14Replicas: after the update every replica runs the new configuration, under its
+// own replica number, and nothing of the old one is left
+func checkC14Replicas(sc *Scenario, t *Truth) []Violation {
+	var vs []Violation
+	var up *Call
+	for _, c := range t.Calls {
+		if c.Client == "updater" {
+			up = c
+		}
+	}
+	if up == nil || up.RetSeq < 0 {
+		return nil
+	}
+	if up.Err != "" {
+		return []Violation{{"C14", "valid-update-rejected", "replicas", fmt.Sprintf("%s failed: %s", up.Desc, up.Err), up.RetSeq}}
+	}
+	want := sc.Updates[0].Procs[0]
+	end := t.EndSeq
+	if sd := t.firstShutdownSeq(sc); sd >= 0 {
+		end = sd
+	}
+	liveNew := map[string]bool{}
+	for _, in := range t.Insts {
+		if in.Kind != "simproc" || !strings.HasPrefix(in.Token, "rp.v") || !in.AliveAt(end-1) {
+			continue
+		}
+		k, _ := envOf(in, "PC_REPLICA_NUM")
+		isNew := in.Token == want.Token
+		for _, kv := range want.Env {
+			if v, _ := envOf(in, kv[:strings.IndexByte(kv, '=')]); v != kv[strings.IndexByte(kv, '=')+1:] {
+				isNew = false
+			}
+		}
+		if !isNew || in.ExecSeq < up.CallSeq {
+			vs = append(vs, Violation{"C14", "replica-not-updated", "", fmt.Sprintf("after %s (returned at t=%v) replica %s of rp still runs the command launched at t=%v with the old configuration (pid %d, %s)", up.Desc, up.RetT, k, in.ExecT, in.Pid, in.Token), up.RetSeq})
+			return vs
+		}
+		if liveNew[k] {
+			vs = append(vs, Violation{"C14", "replica-not-updated", "twice", fmt.Sprintf("after %s two commands of replica %s of rp are alive", up.Desc, k), up.RetSeq})
+			return vs
+		}
+		liveNew[k] = true
+	}
+	for k := 0; k < want.Replicas; k++ {
+		if !liveNew[fmt.Sprint(k)] {
+			vs = append(vs, Violation{"C14", "replica-not-updated", "missing", fmt.Sprintf("after %s (returned at t=%v) no command of replica %d of rp runs with the new configuration", up.Desc, up.RetT, k), up.RetSeq})
+			return vs
+		}
+	}
+	return vs
+}
+
 func genC14(r *R, sc *Scenario, tier string) {
+	if r.P(60) {
+		genC14Replicas(r, sc)
+		return
+	}
 	spec := &ProjectSpec{}
 	sc.Project = spec
 	sc.Scripts = map[string]*TokenScript{}
@@ -459,6 +558,10 @@ func genC14(r *R, sc *Scenario, tier string) {
 				p.Env = append(p.Env, "L=1")
 			}
 		}
+		if len(p.Env) == 0 && r.P(200) {
+			// present but empty: not the same thing as absent once it has travelled as JSON
+			p.RawYAML = "    environment: []\n"
+		}
 		if r.P(250) {
 			p.WorkingDir = Pick(r, "d1", "d2")
 		}
@@ -474,6 +577,9 @@ func genC14(r *R, sc *Scenario, tier string) {
 		}
 		if r.P(120) {
 			p.Disabled = true
+		}
+		if r.P(200) {
+			p.UseEntry = true // entrypoint: [executable, token] instead of a shell command
 		}
 		if r.P(150) {
 			p.Readiness = &ProbeSpec{Token: name, Period: iptr(Pick(r, 1, 2))}
@@ -507,7 +613,22 @@ func genC14(r *R, sc *Scenario, tier string) {
 				continue
 			case r.P(350):
 				// change something that reaches the command or decides about its launches
-				switch r.Intn(9) {
+				switch r.Intn(12) {
+				case 9:
+					// nothing but the executable changes
+					if p.UseEntry {
+						if p.Exe == "simprocB" {
+							p.Exe = ""
+						} else {
+							p.Exe = "simprocB"
+						}
+					} else {
+						p.Token = fmt.Sprintf("%s.v%d", p.Name, u+1)
+					}
+				case 10:
+					p.ParentOnly = !p.ParentOnly // nothing but how it is to be stopped
+				case 11:
+					p.StopTimeout = iptr(u + 2)
 				case 7, 8:
 					// a dependency changes its condition, or is swapped for another one
 					var cands []string
@@ -549,6 +670,7 @@ func genC14(r *R, sc *Scenario, tier string) {
 					p.Token = fmt.Sprintf("%s.v%d", p.Name, u+1)
 				case 1:
 					p.Env = []string{"K=" + Pick(r, "c", "d", "e") + fmt.Sprint(u)}
+					p.RawYAML = ""
 				case 2:
 					if p.WorkingDir == "d1" {
 						p.WorkingDir = "d2"
